@@ -112,9 +112,19 @@ def make_model(train_mode):
         m.eval()
         m.bn.train()
         m.drop.train()
+    elif train_mode == 'mixed2':
+        # root in training mode, batch-norm and dropout deliberately frozen in evaluation mode:
+        # a call may move modules INTO evaluation mode, never out of it
+        m.train()
+        m.bn.eval()
+        m.drop.eval()
     else:
         m.train(bool(train_mode))
     return m
+
+
+def mode_flags(model):
+    return [bool(x.training) for x in model.modules()]
 
 
 def onehot(seqs):
@@ -302,10 +312,13 @@ def run_impl(inp):
                 res['changed'] = not all(torch.equal(a, b) for a, b in zip(b0, b1))
             except Exception as e:
                 res['changed'] = True
+        if any(a and not b for a, b in zip(mode_flags(shared), mode_flags(make_model(inp['train'])))):
+            res['changed'] = True
         return res
 
     model = make_model(inp.get('train', False))
     pristine = copy.deepcopy(model)
+    flags0 = mode_flags(model)
     key = str(inp.get('train', False))
     if key not in _B0:
         _B0[key] = behaviour(copy.deepcopy(pristine))
@@ -328,6 +341,19 @@ def run_impl(inp):
                 raise Injected('bhook %d' % calls['n'])
             return old_nonlinear(module, grad_input, grad_output)
         D._nonlinear = failing_nonlinear
+    elif kind == 'layer':
+        # the forward of one hooked layer itself raises at its k-th call (after the layer's
+        # forward pre-hooks ran, before its forward hooks)
+        layer = getattr(model, inp['layer'])
+        orig_forward = layer.forward
+        lcalls = {'n': 0}
+
+        def failing_forward(*a, **kw):
+            lcalls['n'] += 1
+            if lcalls['n'] == inp['k']:
+                raise Injected('%s forward %d' % (inp['layer'], lcalls['n']))
+            return orig_forward(*a, **kw)
+        layer.forward = failing_forward
     elif kind == 'line':
         f = fid(inp['target'])
         mod = sys.modules['tangermeme.' + f['file'][:-3]]
@@ -359,6 +385,11 @@ def run_impl(inp):
         res['raised'] = True
         res['exc'] = type(e).__name__
     model.fail_at = None
+    if kind == 'layer':
+        try:
+            del getattr(model, inp['layer']).forward     # drop the instance-level wrapper
+        except Exception:
+            pass
     # a line-level injection that lands inside a context manager's exit sequence can leave the
     # process-global grad mode off; that is an artefact of the injector, not model state
     torch.set_grad_enabled(True)
@@ -371,6 +402,10 @@ def run_impl(inp):
         except Exception as e:   # the model no longer even runs forward/backward as before
             changed = True
             res['behaviour_error'] = repr(e)[:200]
+    # a call may switch modules to evaluation mode but must never switch one back to training
+    if any(a and not b for a, b in zip(mode_flags(model), flags0)):
+        changed = True
+        res['mode_flipped_to_training'] = True
     res['changed'] = changed
     return res
 
@@ -464,7 +499,12 @@ def generate(tier, rng):
     # ---- exceptions inside callees
     for name in list(drivers()):
         for k in range(1, 4 if quick else 12):
-            yield {'kind': 'forward', 'fn': name, 'k': k, 'train': [True, False, 'mixed'][k % 3]}
+            yield {'kind': 'forward', 'fn': name, 'k': k, 'train': [True, False, 'mixed', 'mixed2'][k % 4]}
+    for layer in ('relu', 'pool', 'tanh', 'bn', 'conv'):
+        for k in (1, 2, 3):
+            yield {'kind': 'layer', 'fn': 'deep_lift_shap', 'layer': layer, 'k': k, 'variant': {'bs': 1}, 'train': False}
+        yield {'kind': 'layer', 'fn': 'marginalize_dls', 'layer': layer, 'k': 1, 'train': True}
+        yield {'kind': 'layer', 'fn': 'predict', 'layer': layer, 'k': 2, 'train': 'mixed'}
     for k in range(1, 5):
         yield {'kind': 'reference', 'fn': 'deep_lift_shap', 'k': k, 'variant': {'bs': 3}}
         yield {'kind': 'bhook', 'fn': 'deep_lift_shap', 'k': k, 'variant': {'bs': 1}}
@@ -474,7 +514,7 @@ def generate(tier, rng):
             yield {'kind': 'invalid', 'fn': 'deep_lift_shap', 'variant': dict(inv, bs=bs), 'train': True}
     # ---- plain completed calls from each mode (k beyond the number of forward calls: no crash)
     for name in list(drivers()):
-        for mode in (True, False, 'mixed'):
+        for mode in (True, False, 'mixed', 'mixed2'):
             yield {'kind': 'forward', 'fn': name, 'k': 10 ** 6, 'train': mode}
     # ---- histories on a shared model vs fresh copies
     names = list(drivers())
@@ -482,7 +522,7 @@ def generate(tier, rng):
     for _ in range(nh):
         calls = [rng.choice(names) for _i in range(rng.randint(2, 4))]
         variant = rng.choice([None, {'invalid': 'N'}, {'target': 7}, {'bs': 1}])
-        yield {'kind': 'history', 'calls': calls, 'variant': variant, 'train': rng.choice([True, False, 'mixed'])}
+        yield {'kind': 'history', 'calls': calls, 'variant': variant, 'train': rng.choice([True, False, 'mixed', 'mixed2'])}
 
 
 def shrink(inp):
